@@ -32,11 +32,57 @@ def ref_cov(torch, fam, x1, x2, ls, osc, ldb, diag):
     return k
 
 
-def call_desc(s):
-    return "%s%s lengthscale=%s kernel batch=%s input batch=%s d=%d x2=%s%s%s" % (
+def call_desc(s, geo=None):
+    gm = s.get("geom", "unit")
+    return "%s%s lengthscale=%s kernel batch=%s input batch=%s d=%d x2=%s%s%s%s" % (
         s["fam"], " in ScaleKernel" if s["wrap"] == "scale" else "", "ARD(%d)" % s["d"] if s["ls"] == "ard" else "shared", [s["kb"]] if s["kb"] else [], [s["xb"]] if s["xb"] else [], s["d"],
         {"same": "None", "clone": "x1.clone()", "eqn": "other points (n1 = n2)", "gt": "other points (n1 > n2)", "lt": "other points (n1 < n2)"}[s["mode"]],
-        " diag=True" if s["diag"] else "", " last_dim_is_batch=True" if s["ldb"] else "")
+        " diag=True" if s["diag"] else "", " last_dim_is_batch=True" if s["ldb"] else "",
+        "" if gm == "unit" or geo is None else (" geometry: x2 shares rows with x1 (x1[i] = x2[j] for (i, j) in %s, first coordinate only for %s)" % (geo["pairs"], geo["partial"]) if gm == "coin"
+                                                else " geometry: points = 1e%d + unit spread, %d x %d rows" % (geo["off"], geo["n1"], geo["n2"])))
+
+
+def _separated(torch, g, bs, n, d):
+    """n points per batch element in [-1, 1]^d whose coordinates are pairwise separated (a jittered grid, independently permuted per coordinate):
+    |u[i, k] - u[j, k]| >= 1 / n for i != j"""
+    out = torch.empty(*bs, n, d, dtype=torch.float64)
+    flat = out.reshape(-1, n, d)
+    for b in range(flat.shape[0]):
+        for k in range(d):
+            perm = torch.randperm(n, generator=g)
+            jit = torch.rand(n, generator=g, dtype=torch.float64) * 0.5 - 0.25
+            flat[b, :, k] = (2.0 * (perm.to(torch.float64) + 0.5 + jit) / n) - 1.0
+    return flat.reshape(*bs, n, d)
+
+
+def call_inputs(torch, s, geo, g):
+    """the input tensors of a call cell: (x1, x2 or None, centre).  centre: the reference is evaluated on x - centre (exact in float64)"""
+    from checks.c05_ref import U
+    D = torch.float64
+    xbs = [s["xb"]] if s["xb"] else []
+    d, gm = s["d"], s.get("geom", "unit")
+    n1, n2 = (geo["n1"], geo["n2"]) if geo is not None else {"same": (3, 3), "clone": (3, 3), "eqn": (3, 3), "gt": (4, 3), "lt": (2, 3)}[s["mode"]]
+    if gm == "far":
+        off = float(10 ** geo["off"])
+        u = _separated(torch, g, xbs, n1 + n2, d)
+        x1 = off + u[..., :n1, :]
+        x2 = None if s["mode"] == "same" else x1.clone() if s["mode"] == "clone" else off + u[..., n1:, :]
+        for t in (x1, x2):
+            if t is not None and not torch.equal((t - off) + off, t):
+                raise core.Machinery("C19 gcalls: x - 1e%d is not exact" % geo["off"])
+        return x1.contiguous(), (None if x2 is None else x2.contiguous()), off
+    x1 = U(g, -1, 1, *xbs, n1, d)
+    x2 = None if s["mode"] == "same" else x1.clone() if s["mode"] == "clone" else U(g, -1, 1, *xbs, n2, d)
+    if gm == "coin":
+        if x2 is None or s["mode"] == "clone":
+            raise core.Machinery("C19 gcalls: shared rows need two different tensors")
+        for i, j in geo["partial"]:
+            x2[..., j - 1, 0] = x1[..., i - 1, 0]
+        for i, j in geo["pairs"]:
+            x2[..., j - 1, :] = x1[..., i - 1, :]
+        if torch.equal(x1, x2):
+            raise core.Machinery("C19 gcalls: x1 and x2 are equal tensors")
+    return x1, x2, 0.0
 
 
 def run_call(torch, gpytorch, c):
@@ -49,9 +95,15 @@ def run_call(torch, gpytorch, c):
     kbs = [s["kb"]] if s["kb"] else []
     xbs = [s["xb"]] if s["xb"] else []
     d = s["d"]
-    n1, n2 = {"same": (3, 3), "clone": (3, 3), "eqn": (3, 3), "gt": (4, 3), "lt": (2, 3)}[s["mode"]]
-    desc = call_desc(s) + " seed=%d" % c["seed"]
-    sig = "C19/call/%s/%s%s%s/%s" % (s["fam"], s["ls"] + ("-batched" if s["kb"] else ""), "-ldb" if s["ldb"] else "", "-diag" if s["diag"] else "", s["mode"])
+    geo = exp.get("geo")                          # cases recorded before the geometry dimension carry none: geometry "unit"
+    gm = s.get("geom", "unit")
+    if geo is not None:
+        geo = dict(n1=int(geo["n1"]), n2=int(geo["n2"]), off=int(geo["off"]), pairs=sorted([int(p[0]), int(p[1])] for p in geo["pairs"]), partial=sorted([int(p[0]), int(p[1])] for p in geo["partial"]),
+                   helper=geo["helper"], quad=geo["quad"] in (True, "True", "TRUE"))
+    elif gm != "unit":
+        return dict(machinery="C19 gcalls: a %s cell without its geometry" % gm)
+    desc = call_desc(s, geo) + " seed=%d" % c["seed"]
+    sig = "C19/call/%s/%s%s%s/%s%s" % (s["fam"], s["ls"] + ("-batched" if s["kb"] else ""), "-ldb" if s["ldb"] else "", "-diag" if s["diag"] else "", s["mode"], "" if gm == "unit" else "-" + gm)
     res = dict(key=["call", s], ok=True, nontrivial=True, case=c)
 
     kw = dict(batch_shape=torch.Size(kbs))
@@ -66,20 +118,21 @@ def run_call(torch, gpytorch, c):
             kern.outputscale = UD(g, 0.6, 1.8, *kbs) if kbs else U(g, 0.6, 1.8)
     if list(base.lengthscale.shape) != exp["lsshape"]:
         res["drift"] = "KernelCalls.tla: lengthscale shape %s predicted, the kernel has %s (%s)" % (exp["lsshape"], list(base.lengthscale.shape), desc)
-    x1 = U(g, -1, 1, *xbs, n1, d)
-    x2 = None if s["mode"] == "same" else x1.clone() if s["mode"] == "clone" else U(g, -1, 1, *xbs, n2, d)
+    x1, x2, centre = call_inputs(torch, s, geo, g)
+    # the reference sees the centred points (the documented functions depend on x1 - x2 only; x - centre is exact)
+    c1, c2 = x1 - centre, (None if x2 is None else x2 - centre)
     names = [n for n, _ in kern.named_parameters()]
     params = [p for _, p in kern.named_parameters()]
     if sorted(n.split(".")[-1] for n in names) != sorted(exp["params"]):
         return dict(machinery="C19 gcalls: parameters %s, KernelCalls.tla has %s" % (names, exp["params"]))
-    want = ref_cov(torch, s["fam"], x1, x1 if x2 is None else x2, base.lengthscale, kern.outputscale if s["wrap"] == "scale" else None, s["ldb"], s["diag"])
+    want = ref_cov(torch, s["fam"], c1, c1 if c2 is None else c2, base.lengthscale, kern.outputscale if s["wrap"] == "scale" else None, s["ldb"], s["diag"])
     if list(want.shape) != exp["shape"]:
         return dict(machinery="C19 gcalls: reference shape %s, KernelCalls.tla has %s for %s" % (list(want.shape), exp["shape"], desc))
     G = torch.randn(want.shape, generator=g, dtype=D)
 
     # upstream of the INPUT gradients: exp(-r) (nu = 1/2) is not differentiable in the inputs at r = 0: those entries get no weight there
     with torch.no_grad():
-        r2raw = ref_cov(torch, "rbf", x1, x1 if x2 is None else x2, torch.ones(1, 1, dtype=D), None, s["ldb"], s["diag"])      # exp(-r^2 / 2) = 1 exactly where the points coincide
+        r2raw = ref_cov(torch, "rbf", c1, c1 if c2 is None else c2, torch.ones(1, 1, dtype=D), None, s["ldb"], s["diag"])      # exp(-r^2 / 2) = 1 exactly where the points coincide
     Gin = torch.randn(want.shape, generator=g, dtype=D)
     if s["fam"] == "matern05":
         Gin = Gin * (r2raw != 1.0).to(D).expand_as(Gin)
@@ -100,15 +153,30 @@ def run_call(torch, gpytorch, c):
 
     def want_input_grads(wants):
         """autograd of the documented formula with respect to the input tensors that require grad"""
-        a = x1.clone().requires_grad_("x1" in wants)
-        b = a if x2 is None else x2.clone().requires_grad_("x2" in wants)
+        a = c1.clone().requires_grad_("x1" in wants)
+        b = a if c2 is None else c2.clone().requires_grad_("x2" in wants)
         val = ref_cov(torch, s["fam"], a, b, base.lengthscale.detach(), kern.outputscale.detach() if s["wrap"] == "scale" else None, s["ldb"], s["diag"])
         leaves = [t for n, t in (("x1", a), ("x2", b)) if n in wants]
         return list(torch.autograd.grad((val * Gin).sum(), leaves))
     # nu = 1/2 with x1 == x2: the coincident entries of the generic branch are the root of a rounded squared distance (~1e-8 each, see run_path in c19.py)
     kink = s["fam"] == "matern05" and s["mode"] in ("same", "clone") and not s["diag"]
     vt = 1e-7 if kink else 1e-9
-    kink_atol = 3e-7 * float(G.abs().sum()) if kink else 0.0
+    kink_atol = 3e-7 * float(G.abs().sum() if gm == "unit" else (G.abs() * (r2raw == 1.0).to(D).expand_as(G)).sum()) if kink else 0.0
+    # far geometry.  The reference is the closed form on the CENTRED points; the centred computation has unit spread, so its float64 rounding is that of the
+    # "unit" cells (coordinates separated by >= 1 / (n1 + n2): no root of a rounded ~0) and values are compared at 1e-11.  What grows with the offset is the
+    # rounding of the points HANDED IN: x / l carries u |x| / l (u = 2^-53) per coordinate before anything can be subtracted; a result that is exact for
+    # inputs perturbed by that much is granted: first order |delta k| <= 2.1 u 10^e / l per entry, |delta dk/dl| <= 5 u 10^e / l^2 (d <= 3), granted x 2 and
+    # summed with the weights of the upstream gradient; LINEAR in 10^e / l (an un-centred quadratic expansion loses u (10^e / l)^2: 10^e / l times more)
+    far_v = far_g = far_gi = 0.0
+    if gm == "far":
+        with torch.no_grad():
+            lmin = float(base.lengthscale.min())
+        pert = 2.0 ** -53 * 10.0 ** geo["off"] / lmin
+        vt = 3e-7 if kink else 1e-11          # 27 coincident entries per matrix instead of 3: the extreme of the rounded squared distance is larger
+        kink_atol *= 3.0
+        far_v = 4.0 * pert
+        far_g = 8.0 * pert / lmin * float(G.abs().sum())
+        far_gi = 8.0 * pert / lmin * float(Gin.abs().sum())
 
     def ev(force):
         for sp in c05._SPIES:
@@ -136,12 +204,12 @@ def run_call(torch, gpytorch, c):
         if list(Kd.shape) != exp["shape"]:
             res.update(ok=False, sig=sig + "/shape", detail="%s %s: result shape %s, documented %s" % (desc, lab, list(Kd.shape), exp["shape"]))
             return res
-        ok, why = core.close(Kd, wv, vt, 1e-12)
+        ok, why = core.close(Kd, wv, vt, 1e-12 + far_v)
         if not ok:
             res.update(ok=False, sig=sig + "/value-vs-formula", detail="%s %s: value differs from the documented formula: %s" % (desc, lab, why))
             return res
         for n, a_, b_ in zip(names, gr, gw):
-            ok, why = core.close(a_, b_, 1e-7, 1e-10 + kink_atol)
+            ok, why = core.close(a_, b_, 1e-7, 1e-10 + kink_atol + far_g)
             if not ok:
                 res.update(ok=False, sig=sig + "/grad-vs-formula/" + n.split(".")[-1], detail="%s %s: gradient of %s differs from autograd of the documented formula: %s; got %s, formula %s" % (
                     desc, lab, n, why, [float("%.6g" % v) for v in a_.reshape(-1)[:6]], [float("%.6g" % v) for v in b_.reshape(-1)[:6]]))
@@ -156,7 +224,7 @@ def run_call(torch, gpytorch, c):
                     res.update(ok=False, sig=sig + "/input-grad-missing/" + n, detail="%s %s: %s requires grad (%s) and NO gradient is delivered for it (None); the documented function has d/d%s with max |.| = %.3g" % (
                         desc, lab, n, "only %s" % n if len(wants) == 1 else "x1 and x2", n, float(b_.abs().max())))
                     return res
-                ok, why = core.close(a_, b_, 1e-7, 1e-10)
+                ok, why = core.close(a_, b_, 1e-7, 1e-10 + far_gi)
                 if not ok:
                     res.update(ok=False, sig=sig + "/input-grad-vs-formula/" + n, detail="%s %s: gradient delivered for %s differs from autograd of the documented formula: %s" % (desc, lab, n, why))
                     return res
@@ -165,12 +233,12 @@ def run_call(torch, gpytorch, c):
         for force, (Kd, gr) in runs.items():
             if force == "none":
                 continue
-            ok, why = core.close(runs["none"][0], Kd, vt, 1e-12)
+            ok, why = core.close(runs["none"][0], Kd, vt, 1e-12 + far_v)
             if not ok:
                 res.update(ok=False, sig=sig + "/fast-vs-generic/value", detail="%s: values under forcing none and %s differ: %s" % (desc, force, why))
                 return res
             for n, a_, b_ in zip(names, runs["none"][1], gr):
-                ok, why = core.close(a_, b_, 1e-7 if kink else 1e-9, 1e-12 + kink_atol)
+                ok, why = core.close(a_, b_, 1e-7 if kink else 1e-9, 1e-12 + kink_atol + far_g)
                 if not ok:
                     res.update(ok=False, sig=sig + "/fast-vs-generic/grad-" + n.split(".")[-1], detail="%s: gradient of %s differs between forcing none and %s: %s" % (desc, n, force, why))
                     return res
